@@ -54,6 +54,12 @@ def plan(prop, tier, seed):
     if prop in ('C01', 'C02'):
         for t in list(corpus.widesquare(seed, big=(tier == 'thorough'))) + corpus.giant(seed):
             out.append((t, False))
+    if prop == 'C18':
+        for t in corpus.bigintent():
+            out.append((t, False))
+    if prop == 'C16':
+        for t in corpus.giant(seed)[:1]:       # many objects, 3 properties (relations are quadratic in properties)
+            out.append((t, False))
     if prop == 'C04':
         for t in corpus.giant_gen(seed) + corpus.giant(seed):
             out.append((t, False))
